@@ -5,7 +5,8 @@ MCREW_NOTE = ("Trusted: Coq 8.16.1 kernel (vm_compute in cases files, Examples a
               "Model/Conc.v are hand-written and tied to cmd/mcrew/service.go + storage.go by overlay tests run inside the package "
               "on every check (go test -overlay; /repo is not edited). Modelled, not verified: which regions of the Go code are "
               "atomic (read off the Lock/Unlock pairs: Process, and after the D15 repair AddMachine and RemMachine, are one step "
-              "each), bbolt's all-or-nothing Update that fails iff the file is closed, the Go scheduler (any interleaving of atomic "
+              "each), bbolt's all-or-nothing Update that fails iff the file is closed (that a batch of 130 / 200 records with one "
+              "unserialisable record is refused as a whole is observed by the volume histories), the Go scheduler (any interleaving of atomic "
               "steps), goja/encoding/json/yaml. Partial: that the lock regions are what the model says, and that there is no data "
               "race, is observed (8 concurrent clients plus a fault injector, linearisation search against the model and against "
               "the specification automaton, race detector in the thorough tier), not proved.")
@@ -15,7 +16,10 @@ TEXTS = {
              "read requests with the store going down and up at arbitrary points, the model of the mcrew service keeps memory "
              "equal to the store in every reachable state (C16_mem_eq_store); a request that reports failure changes nothing and "
              "nothing changes while the store is down (C16_failed_op_is_noop, C16_store_down_is_noop); memory changes only with a "
-             "successful write that stores exactly the new memory (C16_advance_needs_write); every interleaving equals the "
+             "successful write that stores exactly the new memory (C16_advance_needs_write); a batch of any size is written "
+             "entirely or not at all: one end state that cannot be serialised leaves memory and store untouched for every walked "
+             "machine although the store is up, and a Process call without error wrote the whole batch "
+             "(C16_batch_all_or_nothing, C16_batch_written_whole); every interleaving equals the "
              "sequential execution of a merge of the clients' programmes and its responses are accepted by the specification "
              "automaton written from the property text - every reported walk starts from the machine's current state, no update "
              "is lost (C16_serialisable, C16_responses_chain). The pre-repair two-step AddMachine is refuted (C16_refuted_prefix: "
